@@ -28,8 +28,17 @@ def _init_worker():
 def _run(hist):
     try:
         return hist, _EXEC(hist), None
-    except BaseException as e:  # harness bug
-        return hist, None, f"execute() raised {type(e).__name__}: {e} on {hist!r}\n" + traceback.format_exc()[-1500:]
+    except BaseException as e:  # noqa
+        from .engine_i import raised_inside_signac
+        where = raised_inside_signac(e)
+        if where is None:  # harness bug
+            return hist, None, f"execute() raised {type(e).__name__}: {e} on {hist!r}\n" + traceback.format_exc()[-1500:]
+        res = {"key": f"raises:{type(e).__name__}:{where}", "enabled": [], "n": len(hist), "cls": "public-call-raises", "viol": [{
+            "sig": {"kind": "public-call-raises", "exc": type(e).__name__, "where": where}, "scenario": "history",
+            "input": {"history": [list(o) if isinstance(o, (list, tuple)) else o for o in hist]},
+            "expected": "no exception", "observed": f"{type(e).__name__}: {e}"[:500],
+            "msg": f"a signac call made while replaying {list(hist)!r} raised {type(e).__name__}: {e} (in {where})"[:1200]}]}
+        return hist, res, None
 
 
 def _canon(res):
@@ -56,9 +65,10 @@ class Stats:
         self.samples = []
         self.replays = 0
         self.reps = []  # one history per discovered state
+        self.nonreps = []  # histories that led to an already known state (filled when collect_all is set)
 
 
-def explore(ctx, execute, max_depth, chunk=8, selfcheck_every=101, seen=None, stats=None, root=()):
+def explore(ctx, execute, max_depth, chunk=8, selfcheck_every=101, seen=None, stats=None, root=(), collect_all=False):
     global _EXEC
     _EXEC = execute
     st = stats or Stats()
@@ -108,6 +118,8 @@ def explore(ctx, execute, max_depth, chunk=8, selfcheck_every=101, seen=None, st
                     st.states += 1
                     nxt.append((h, res["enabled"]))
                     st.reps.append(h)
+                elif collect_all:
+                    st.nonreps.append(h)
                     if len(st.samples) < 5 and depth >= 2:
                         st.samples.append({"history": list(h), "state": str(res["key"])[:300]})
             # determinism: violations and a fixed subset are executed a second time
